@@ -9,11 +9,12 @@ P("C19",
   level_text="The model mirrors mem/cache/directory_ops.go function by function (splitmix64 set index with 64-bit wrap, panics as None). "
              "Theorems c19_* prove: Reset yields a well-formed directory; Visit keeps each recency list a permutation of the ways; FindVictim returns "
              "the least-recently-used way that is neither locked nor read, and falls back to LRUOrder[0] (which the callers' guard then refuses) only when every way is busy; "
-             "Lookup is sound and, in a well-formed directory, complete and unique; every guarded directory-level operation of the two caches preserves dir_wf, "
-             "by induction over arbitrary operation lists.",
+             "Lookup is sound and, in a well-formed directory, complete and unique; every guarded directory-level operation of the write-back cache (with the auxiliary invariant 'locked blocks are valid', needed because its bank stage re-validates) "
+             "and of the write-through family preserves dir_wf, by induction over arbitrary operation lists; the pre-fix Invalidate and the pre-fix PID-keeping install are refuted.",
   level_note="PARTIAL for 'every reachable state of the real caches': the pipelines of writeback/ and writethroughcache/ (MSHR, bank stages, "
              "write buffer, flusher, control middleware) are not modelled; instead the Coq function dir_wf is evaluated on directory snapshots "
-             "taken from real caches every few engine events under random workloads and control histories (a plain-Go replica watches every state and adds any state it dislikes to the samples).",
+             "taken from real caches every few engine events under random workloads and control histories (a plain-Go replica watches every state and adds any state it dislikes to the samples); directed window sweeps (same-line re-access at every gap after a miss, "
+             "cold / re-cooled caches, control verbs inside the fill window) are sampled after every handled event.",
   assumptions=["uint64 arithmetic of Go = arithmetic modulo 2^64; index-out-of-range and division by zero are the outcome None",
                "guards of the directory-level operations are those of directorystage.go / directory.go / writepolicy.go / bankstage.go (read from the code, "
                "not extracted): install only after a lookup miss into the FindVictim way when it is neither locked nor read; readers-- only after a readers++"],
